@@ -327,6 +327,13 @@ def c07_7(ctx):
     if not bv:
         ctx.fail(f, f.node, 'explicit value orders are no longer ranked with d.get(value, default)')
     else:
+        # the rank tables are built in the caller's keyword order (the first value order is the primary key)
+        dd = [x for x in ast.walk(f.node) if isinstance(x, ast.Assign) and U(x.targets[0]) == 'dicts']
+        ctx.count(1)
+        if not dd or not isinstance(dd[0].value, ast.DictComp) or N(dd[0].value.generators[0].iter) != 'byval.items()' \
+                or N(dd[0].value.value) != NS('dict(zip(vals, range(len(vals))))') or U(dd[0].value.key) != U(dd[0].value.generators[0].target.elts[0]):
+            ctx.fail(f, dd[0] if dd else f.node, 'rank tables are `%s`: expected one dict(zip(vals, range(len(vals)))) per value-ordered column, in the order the caller gave them (byval.items())' % (U(dd[0].value)[:100] if dd else '?'),
+                     witness="sort(key=[...], gender=[...]) sorts by key first, then gender")
         g = [c for c in calls_in(bv[0], 'get')]
         dn = U(g[0].func.value)
         if len(g[0].args) != 2 or N(g[0].args[1]) != 'len(%s)' % dn:
